@@ -399,21 +399,21 @@ def replay(ob):
         c2 = 'divzero' if 'division by zero' in (o2 + e2) else o2.strip()
         info.update(program_literal=lit, output_literal=(o1 + e1)[:400], program_variable=var, output_variable=(o2 + e2)[:400],
                     class_literal=c1, class_variable=c2)
-        return (c1 != c2), info
+        return (True if c1 != c2 else None), info
     if ob.id == "C05.opt.imm_index.fits":
         prog, want = many_constants_program()
         o, e, rc = abra_cli.run_program(prog, timeout=300)
         info.update(program="generated: two array literals holding the integers 1..80000 (more than 2^16 distinct int constants), "
                             "then `let x = id(5)`, `println(x + 70000)` (literal operand) and `println(x + id(70000))` (same value through a call)",
                     expected_output=want, real_output=(o + e)[:300], exit_code=rc)
-        return (o != want), info
+        return (True if o != want else None), info
     if ob.id == "C05.opt.peephole2.encodable":
         prog, want = big_locals_program()
         o, e, rc = abra_cli.run_program(prog, timeout=300)
         info.update(program="generated: %d `let vI = 1` + `s = s + vI` for every I + println(s)" % 16400,
                     expected_output=want, real_output=(o + e)[:600], exit_code=rc)
         bad = ('out of 15-bit range' in (o + e)) or (o.strip() != want)
-        return bad, info
+        return (True if bad else None), info
     return None, dict(note="no replay generator for this obligation")
 
 
